@@ -130,7 +130,7 @@ ParseInt(s) ==
   LET neg  == s # <<>> /\ s[1] = 45
       body == IF s # <<>> /\ s[1] \in {45, 43} THEN Tail(s) ELSE s
   IN IF ~AllDigits(body) THEN XNone
-     ELSE IF Len(body) > 6 THEN XUnk
+     ELSE IF Len(body) > 9 THEN XUnk
      ELSE IntV(IF neg THEN -DigitsVal(body, 0) ELSE DigitsVal(body, 0))
 
 RECURSIVE IndexOf(_, _, _)
@@ -286,7 +286,7 @@ Compare(f, a, b) ==
   ELSE IF "NumVariantOrder" \in Dev /\ a.t # b.t
        THEN \* as built: derived PartialEq / PartialOrd compare the variant first
             Val(BoolV(CmpResult(f, CmpB(a, b))))
-  ELSE IF a.t = "real" /\ b.t = "real" /\ "FloatNanOrd" \in Dev /\ (a.c = "nan" \/ b.c = "nan")
+  ELSE IF a.t = "real" /\ b.t = "real" /\ "FloatNanOrd" \in Dev /\ (a.c \in {"nan", "nnan"} \/ b.c \in {"nan", "nnan"})
        THEN Val(BoolV(f = "!="))                     \* IEEE: every comparison with NaN is false, != true
   ELSE Val(BoolV(CmpResult(f, CmpB(a, b))))
 
@@ -464,7 +464,7 @@ Call1(f, a) ==
          ELSE IF a.t # "real" THEN Err
          ELSE IF a.c = "fin" THEN (IF a.n < 0 THEN Val(NaN)
                                    ELSE IF PerfectSquare(a.n) /\ PerfectSquare(a.d) THEN Val(RealV(ISqrt(a.n, 0), ISqrt(a.d, 0))) ELSE Unk)
-         ELSE IF a.c \in {"nzero", "pinf", "nan"} THEN Val(a)
+         ELSE IF a.c \in {"nzero", "pinf", "nan", "nnan"} THEN Val(a)
          ELSE IF a.c \in {"ninf", "n63"} THEN Val(NaN)
          ELSE Unk
     [] f = "extract_epoch" -> IF a.t = "ts" THEN (LET r == EpochOf(a) IN IF r.t = "unk" THEN Unk ELSE Val(r)) ELSE Err
@@ -478,7 +478,7 @@ Call2(f, a, b) ==
   CASE f \in {"least", "greatest"} ->
          IF IsNull(a) \/ IsNull(b) THEN Val(Null)
          ELSE IF a.t # b.t \/ a.t \notin {"int", "real", "ts", "iv"} THEN Err
-         ELSE IF a.t = "real" /\ (a.c \in {"nan", "nzero"} \/ b.c \in {"nan", "nzero"}) THEN Unk
+         ELSE IF a.t = "real" /\ (a.c \in {"nan", "nnan", "nzero"} \/ b.c \in {"nan", "nnan", "nzero"}) THEN Unk
          ELSE LET c == Cmp(a, b) IN Val(IF (f = "least") = (c <= 0) THEN a ELSE b)
     [] f = "pow" ->
          IF IsNull(a) \/ IsNull(b) THEN Val(Null)
@@ -580,7 +580,7 @@ Eval(e, env) ==
                                        ELSE IF a.v.c = "fin" THEN Val(NZero)
                                        ELSE IF a.v.c = "nzero" THEN Val(RealV(0, 1))
                                        ELSE IF a.v.c = "pinf" THEN Val(NInf) ELSE IF a.v.c = "ninf" THEN Val(PInf)
-                                       ELSE IF a.v.c = "nan" THEN Val(NaN) ELSE IF a.v.c = "p63" THEN Val(N63) ELSE IF a.v.c = "n63" THEN Val(P63) ELSE Unk)
+                                       ELSE IF a.v.c \in {"nan", "nnan"} THEN Val(NaN) ELSE IF a.v.c = "p63" THEN Val(N63) ELSE IF a.v.c = "n63" THEN Val(P63) ELSE Unk)
          ELSE Err
     [] e.op = "not" ->
          LET a == Eval(e.a, env) IN IF a.k # "val" THEN a ELSE
